@@ -123,6 +123,9 @@ func (r SelectRec) Key(withQuerierRange bool) string {
 // Session is a per-query view of a Store.
 type Session struct {
 	st *Store
+	// root: this session is a view of another store that shares the fault script, the
+	// counters and the querier / select accounting of root (partitions of a distributed case).
+	root *Session
 
 	Shuffle uint64
 	Trim    bool
@@ -150,6 +153,19 @@ type Session struct {
 
 func (st *Store) Session() *Session {
 	return &Session{st: st, counts: map[string]int{}}
+}
+
+// View returns a queryable over another store whose callbacks count, fault and are
+// accounted as callbacks of s.
+func (s *Session) View(st *Store) *Session {
+	return &Session{st: st, root: s}
+}
+
+func (s *Session) r() *Session {
+	if s.root != nil {
+		return s.root
+	}
+	return s
 }
 
 func (s *Session) WithFaults(f ...core.Fault) *Session {
@@ -305,13 +321,15 @@ func splitmix(x uint64) uint64 {
 
 // Querier implements storage.Queryable.
 func (s *Session) Querier(ctx context.Context, mint, maxt int64) (storage.Querier, error) {
+	data := s.st
+	s = s.r()
 	if s.hit("querier", ctx) == actError {
 		return nil, ErrInjected
 	}
 	if s.HonourCtx && ctx != nil && ctx.Err() != nil {
 		return nil, ctx.Err()
 	}
-	q := &querier{s: s, ctx: ctx, mint: mint, maxt: maxt}
+	q := &querier{s: s, st: data, ctx: ctx, mint: mint, maxt: maxt}
 	s.mu.Lock()
 	s.queriers = append(s.queriers, q)
 	s.mu.Unlock()
@@ -320,6 +338,7 @@ func (s *Session) Querier(ctx context.Context, mint, maxt int64) (storage.Querie
 
 type querier struct {
 	s          *Session
+	st         *Store
 	ctx        context.Context
 	mint, maxt int64
 	closed     int32
@@ -358,9 +377,9 @@ func (q *querier) Select(sortSeries bool, hints *storage.SelectHints, matchers .
 		return &seriesSet{q: q, err: q.ctx.Err()}
 	}
 
-	s.st.mu.RLock()
+	q.st.mu.RLock()
 	var out []*series
-	for _, sr := range s.st.series {
+	for _, sr := range q.st.series {
 		ok := true
 		for _, m := range matchers {
 			if !m.Matches(sr.lset.Get(m.Name)) {
@@ -372,7 +391,7 @@ func (q *querier) Select(sortSeries bool, hints *storage.SelectHints, matchers .
 			out = append(out, sr)
 		}
 	}
-	s.st.mu.RUnlock()
+	q.st.mu.RUnlock()
 	if !sortSeries && s.Shuffle != 0 {
 		// Deterministic permutation (Fisher-Yates driven by splitmix).
 		x := s.Shuffle
